@@ -15,7 +15,7 @@ import (
 func init() {
 	register("C04",
 		"exactness of the Julian-Day formula and of its floating-point inverse, additivity of NextDay over month lengths, minute/hour carries, and every other numeric agreement between the stepping functions and the day count.",
-		r04_1, r04_2, r04_3, r04_4, r04_5, r04_6, r04_7, r04_8, r07_3)
+		r04_1, r04_2, r04_3, r04_4, r04_5, r04_6, r04_7, r04_8, r04_9, r07_3)
 }
 
 var solarComponent = map[string]int{"Solar.year": 0, "Solar.month": 1, "Solar.day": 2, "Solar.hour": 3, "Solar.minute": 4, "Solar.second": 5}
@@ -491,52 +491,161 @@ func countConst(uses []constUse, op token.Token, k int64) int {
 
 func r04_5(c *Ctx, r *Report) {
 	const rule = "R04.5"
-	r.rule(rule, "Time-unit constants agree. SubtractMinute converts hours with 60, borrows 1440 = 24*60 and multiplies days by the same 1440; NextHour divides and wraps by 24; GetJulianDay divides seconds by 60, 60, 24 and NewSolarFromJulianDay multiplies by 24, 60, 60 in the mirrored order; the carries test > 59, > 59, > 23 and subtract 60, 60, 24.")
-	if fn := c.Fn(r, rule, "calendar.(*Solar).SubtractMinute"); fn != nil {
-		u := intConstUses(fn)
-		okk := countConst(u, token.MUL, 60) == 2 && countConst(u, token.ADD, 1440) == 1 && countConst(u, token.MUL, 1440) == 1
-		r.check(okk, rule, "calendar.(*Solar).SubtractMinute uses 60 and 1440 consistently", c.fnPos(fn), fmt.Sprintf("constants used: %v", u))
+	r.rule(rule, "Time units. SubtractMinute(o) is 1440 * (day difference) + (own hour*60 + minute) - (o's hour*60 + minute), the day difference being Subtract(o): followed by the evaluator for day differences -2..2 and times of day on both sides; NextHour(n) moves the date by floor((hour + n) / 24) days through NextDay and sets the hour to (hour + n) mod 24, minute and second unchanged: followed for every start hour and n in -60..60 (the date calls are abstract inputs). GetJulianDay divides the time of day by 60, 60, 24 and NewSolarFromJulianDay (with its helpers) multiplies the fraction by 24, 60, 60: the same units in mirrored order (the carries themselves are R04.9).")
+	solarFields := func(recv ssa.Value, vals [6]int64, fr *evalFrame, v ssa.Value) (interface{}, bool) {
+		if rc, f, ok := getterField(c, v); ok {
+			if ofr, o := fr.origin(rc); ofr.parent == nil && o == recv {
+				if i, known := solarComponent[f]; known {
+					return vals[i], true
+				}
+			}
+		}
+		return nil, false
 	}
-	if fn := c.Fn(r, rule, "calendar.(*Solar).NextHour"); fn != nil {
-		u := intConstUses(fn)
-		okk := countConst(u, token.QUO, 24) == 1 && countConst(u, token.REM, 24) == 1 && countConst(u, token.ADD, 24) == 1
-		r.check(okk, rule, "calendar.(*Solar).NextHour divides and wraps by 24", c.fnPos(fn), fmt.Sprintf("constants used: %v", u))
-	}
-	if fn := c.Fn(r, rule, "SolarUtil.GetJulianDay"); fn != nil {
-		// d = day + ((second/60 + minute)/60 + hour)/24
-		var divs []float64
-		for _, b := range fn.Blocks {
-			for _, ins := range b.Instrs {
-				if bo, ok := ins.(*ssa.BinOp); ok && bo.Op == token.QUO && isFloatType(bo.Type()) {
-					if k, ok := bo.Y.(*ssa.Const); ok && k.Value != nil {
-						f, _ := constant.Float64Val(k.Value)
-						divs = append(divs, f)
+	if fn := c.Fn(r, rule, "calendar.(*Solar).SubtractMinute"); fn != nil && len(fn.Params) == 2 {
+		var bad []string
+		n := 0
+		for dd := int64(-2); dd <= 2; dd++ {
+			for _, a := range [][2]int64{{0, 0}, {23, 59}, {10, 30}} {
+				for _, bb := range [][2]int64{{0, 0}, {23, 59}, {10, 31}, {9, 0}} {
+					leaf := func(fr *evalFrame, v ssa.Value) (interface{}, bool) {
+						if x, ok := solarFields(ssa.Value(fn.Params[0]), [6]int64{2022, 5, 17, a[0], a[1], 7}, fr, v); ok {
+							return x, true
+						}
+						if x, ok := solarFields(ssa.Value(fn.Params[1]), [6]int64{2022, 5, 17, bb[0], bb[1], 9}, fr, v); ok {
+							return x, true
+						}
+						if call, ok := v.(*ssa.Call); ok && call.Common().StaticCallee() != nil && fname(call.Common().StaticCallee()) == "calendar.(*Solar).Subtract" {
+							_, x := fr.origin(call.Common().Args[0])
+							_, y := fr.origin(call.Common().Args[1])
+							if x == ssa.Value(fn.Params[0]) && y == ssa.Value(fn.Params[1]) {
+								return dd, true
+							}
+						}
+						return nil, false
+					}
+					ev := &evaluator{inline: inlineLibrary, leaf: leaf}
+					res, outcome := ev.run(fn, nil, nil, nil, nil)
+					n++
+					want := dd*1440 + (a[0]*60 + a[1]) - (bb[0]*60 + bb[1])
+					if outcome != "return" || len(res) != 1 {
+						bad = append(bad, "not followed: "+outcome+" "+ev.fail)
+					} else if res[0] != interface{}(want) {
+						bad = append(bad, fmt.Sprintf("%d days, %02d:%02d minus %02d:%02d gives %v minutes, expected %d", dd, a[0], a[1], bb[0], bb[1], res[0], want))
 					}
 				}
 			}
 		}
-		r.check(len(divs) == 3 && divs[0] == 60 && divs[1] == 60 && divs[2] == 24, rule, "SolarUtil.GetJulianDay divides the time of day by 60, 60, 24", c.fnPos(fn), fmt.Sprintf("float divisions by %v", divs))
+		sort.Strings(bad)
+		r.check(len(bad) == 0 && n == 60, rule, "calendar.(*Solar).SubtractMinute is 1440 * days + difference of the times of day", c.fnPos(fn), fmt.Sprintf("%d cases; deviations: %v", n, headList(dedupe(bad), 3)))
 	}
-	if fn := c.Fn(r, rule, "calendar.NewSolarFromJulianDay"); fn != nil {
-		var muls []float64
-		for _, b := range fn.Blocks {
-			for _, ins := range b.Instrs {
-				if bo, ok := ins.(*ssa.BinOp); ok && bo.Op == token.MUL && isFloatType(bo.Type()) {
-					if k, ok := bo.Y.(*ssa.Const); ok && k.Value != nil {
-						f, _ := constant.Float64Val(k.Value)
-						if f == 24 || f == 60 {
-							muls = append(muls, f)
+	if fn := c.Fn(r, rule, "calendar.(*Solar).NextHour"); fn != nil && len(fn.Params) == 2 {
+		var bad []string
+		n := 0
+		for h0 := int64(0); h0 < 24 && len(bad) < 4; h0++ {
+			for k := int64(-60); k <= 60; k++ {
+				var leaf leafX
+				leaf = func(fr *evalFrame, v ssa.Value) (interface{}, bool) {
+					if fr.parent == nil && v == ssa.Value(fn.Params[1]) {
+						return k, true
+					}
+					if x, ok := solarFields(ssa.Value(fn.Params[0]), [6]int64{2022, 5, 17, h0, 33, 44}, fr, v); ok {
+						return x, true
+					}
+					if rc, f, ok := getterField(c, v); ok {
+						if o, ok := evalWith(fr, rc, leaf); ok {
+							if st, isS := o.(absStep); isS {
+								switch f {
+								case "Solar.year":
+									return int64(9000), true
+								case "Solar.month":
+									return int64(9), true
+								case "Solar.day":
+									return st.k, true // the marker: by how many days the date was moved
+								case "Solar.minute":
+									return int64(33), true
+								case "Solar.second":
+									return int64(44), true
+								}
+							}
+						}
+					}
+					call, ok := v.(*ssa.Call)
+					if !ok || call.Common().StaticCallee() == nil {
+						return nil, false
+					}
+					switch fname(call.Common().StaticCallee()) {
+					case "calendar.(*Solar).NextDay":
+						if _, o := fr.origin(call.Common().Args[0]); o == ssa.Value(fn.Params[0]) {
+							if d, ok := evalWith(fr, call.Common().Args[1], leaf); ok {
+								if di, isI := d.(int64); isI {
+									return absStep{absDate{2022, 5, 17}, di}, true
+								}
+							}
+						}
+					case "calendar.NewSolar":
+						var a []int64
+						for _, x := range call.Common().Args {
+							o, ok := evalWith(fr, x, leaf)
+							ki, isI := o.(int64)
+							if !ok || !isI {
+								return nil, false
+							}
+							a = append(a, ki)
+						}
+						if len(a) == 6 {
+							return absSolar{a[0], a[1], a[2], a[3], a[4], a[5]}, true
+						}
+					}
+					return nil, false
+				}
+				ev := &evaluator{inline: inlineLibrary, leaf: leaf}
+				res, outcome := ev.run(fn, nil, nil, nil, nil)
+				n++
+				t := h0 + k
+				days := t / 24
+				hour := t % 24
+				if hour < 0 {
+					hour += 24
+					days--
+				}
+				want := absSolar{9000, 9, days, hour, 33, 44}
+				if outcome != "return" || len(res) != 1 {
+					bad = append(bad, "not followed: "+outcome+" "+ev.fail)
+				} else if res[0] != interface{}(want) {
+					bad = append(bad, fmt.Sprintf("hour %d moved by %d hours: %v, expected the date moved by %d days and hour %d", h0, k, res[0], days, hour))
+				}
+			}
+		}
+		sort.Strings(bad)
+		r.check(len(bad) == 0 && n == 24*121, rule, "calendar.(*Solar).NextHour moves the date by whole days and wraps the hour", c.fnPos(fn), fmt.Sprintf("%d cases; deviations: %v", n, headList(dedupe(bad), 3)))
+	}
+	floatConsts := func(fn *ssa.Function, op token.Token) []float64 {
+		var out []float64
+		for _, f := range withHelpers(c, fn) {
+			for _, b := range f.Blocks {
+				for _, ins := range b.Instrs {
+					if bo, ok := ins.(*ssa.BinOp); ok && bo.Op == op && isFloatType(bo.Type()) {
+						if k, ok := bo.Y.(*ssa.Const); ok && k.Value != nil {
+							f64, _ := constant.Float64Val(k.Value)
+							if f64 == 24 || f64 == 60 {
+								out = append(out, f64)
+							}
 						}
 					}
 				}
 			}
 		}
-		u := intConstUses(fn)
-		okk := len(muls) == 3 && muls[0] == 24 && muls[1] == 60 && muls[2] == 60 &&
-			countConst(u, token.GTR, 59) == 2 && countConst(u, token.GTR, 23) == 1 && countConst(u, token.SUB, 60) == 2 && countConst(u, token.SUB, 24) == 1
-		r.check(okk, rule, "calendar.NewSolarFromJulianDay multiplies by 24, 60, 60 and carries at 59, 59, 23", c.fnPos(fn), fmt.Sprintf("float multiplications %v; integer constants %v", muls, u))
+		sort.Float64s(out)
+		return out
 	}
-	r.floor(rule, 4)
+	g, h := c.Fn(r, rule, "SolarUtil.GetJulianDay"), c.Fn(r, rule, "calendar.NewSolarFromJulianDay")
+	if g != nil && h != nil {
+		divs, muls := floatConsts(g, token.QUO), floatConsts(h, token.MUL)
+		okk := len(divs) == 3 && len(muls) == 3 && divs[0] == 24 && divs[1] == 60 && divs[2] == 60 && muls[0] == 24 && muls[1] == 60 && muls[2] == 60
+		r.check(okk, rule, "GetJulianDay and NewSolarFromJulianDay use the units 24, 60, 60", c.fnPos(h), fmt.Sprintf("divisions %v; multiplications %v", divs, muls))
+	}
+	r.floor(rule, 3)
 }
 
 // ---------- R04.6 mirror symmetry of the day difference ----------
